@@ -5,74 +5,13 @@ package PVM
 // (lib/refpvm), through the top-level path DeBlobProgramCode → Host.HostCall.
 
 import (
+	"fmt"
 	"os"
-	"strconv"
-	"strings"
 	"testing"
 
+	"github.com/New-JAMneration/JAM-Protocol/internal/zzverif/refpvm"
 	"github.com/New-JAMneration/JAM-Protocol/internal/zzverif/vlib"
 )
-
-const c01Gas = 100
-const c01ProgGas = 40
-
-// c01SingleSweep enumerates the single-instruction sweep and calls f for the
-// cases of this shard. The a-priori size is reported through r.Space.
-func c01SingleSweep(r *vlib.Run, idx *uint64, f func(blob []byte, w *c01World, gas uint64, note string)) {
-	thorough := r.Thorough()
-	units := c01OpUnits(thorough)
-	if dev := os.Getenv("C01_DEV_OPS"); dev != "" { // development only: never exhaustive
-		r.Cap("C01_DEV_OPS filter")
-		var keep []c01OpUnit
-		for _, u := range units {
-			for _, f := range strings.Split(dev, ",") {
-				if v, err := strconv.Atoi(f); err == nil && byte(v) == u.op {
-					keep = append(keep, u)
-				}
-			}
-		}
-		units = keep
-	}
-	firsts := c01FirstBytes(thorough)
-	for _, u := range units {
-		seconds := c01SecondBytes(thorough && c01SecondStructural(u.op))
-		for _, b1 := range firsts {
-			for _, b2 := range seconds {
-				for _, s := range c01Skips {
-					for pos := 0; pos < c01Positions; pos++ {
-						for tail := 0; tail < 2; tail++ {
-							for wi := 0; wi < 2; wi++ {
-								*idx++
-								if !r.Mine(*idx) {
-									continue
-								}
-								r.Space(1)
-								f(c01SingleBlob(u, b1, b2, s, pos, tail), c01Worlds[wi], c01Gas, "single")
-							}
-						}
-					}
-				}
-			}
-		}
-	}
-}
-
-// c01ProgSweep enumerates all programs of 1..maxLen alphabet instructions with
-// every bitmask over the code.
-func c01ProgSweep(r *vlib.Run, maxLen int, idx *uint64, f func(blob []byte, w *c01World, gas uint64, note string)) {
-	w := c01Worlds[2]
-	c01ProgCodes(maxLen, func(code []byte, nins int) {
-		n := uint64(1) << uint(len(code))
-		for m := uint64(0); m < n; m++ {
-			*idx++
-			if !r.Mine(*idx) {
-				continue
-			}
-			r.Space(1)
-			f(c01ProgBlob(code, m), w, c01ProgGas, "prog")
-		}
-	})
-}
 
 func TestVerif_C01(t *testing.T) {
 	r := vlib.Start(t, "C01")
@@ -82,6 +21,9 @@ func TestVerif_C01(t *testing.T) {
 	var rc c01Case
 	if r.IsReplay(&rc) {
 		c01Check(r, "C01", vlib.Unhex(rc.Blob), c01Worlds[rc.World], rc.Gas, rc.Note)
+		if os.Getenv("C01_DEBUG") != "" {
+			c01DebugTrace(t, vlib.Unhex(rc.Blob), c01Worlds[rc.World], rc.Gas)
+		}
 		return
 	}
 	var idx uint64
@@ -122,5 +64,24 @@ func c01DegenerateBlobs() [][]byte {
 		{1, 0, 1, 0, 1},    // |j|=1 z=0: one zero-width entry
 		{0, 255, 1, 0, 1},  // z=255, no entries
 		{0x80, 0, 1, 0, 1}, // |j| encoded non-minimally (0x80 0x00): not a natural
+	}
+}
+
+// c01DebugTrace prints, for every gas 0..gas, the verdict of the comparison
+// (development aid for triage; only with C01_DEBUG=1 in replay mode).
+func c01DebugTrace(t *testing.T, blob []byte, w *c01World, gas uint64) {
+	prog, err := refpvm.Deblob(blob)
+	if err != nil {
+		fmt.Printf("DBG not a program: %v\n", err)
+		return
+	}
+	fmt.Printf("DBG code % x mask %v jt z=%d n=%d blockstarts %v\n", prog.Code, prog.Mask, prog.Z, prog.NJ, prog.BlockStarts())
+	for g := uint64(0); g <= gas; g++ {
+		v := c01Judge(prog, blob, nil, w, g, true)
+		fmt.Printf("DBG gas %d: ok=%v relax=%q kind=%s detail=%s | ref exit=%s pc=%d steps=%d lastpc=%d regs=%x | impl kind=%s pc=%d gas=%d regs=%x panic=%q\n",
+			g, v.ok, v.relax, v.kind, v.detail, v.ref.exit, v.ref.pc, v.ref.m.Steps, v.ref.m.LastPC, v.ref.m.Regs, v.im.kind, v.im.pc, v.im.gas, v.im.regs, v.im.panicMsg)
+		if g > 12 && g < gas-1 {
+			g = gas - 2
+		}
 	}
 }
